@@ -155,6 +155,17 @@ def lp_state_readers(repo):
 def check_output_gates(rep, repo):
     rule = 'C14.R4'
     f = repo.method('Model', 'get_results')
+    # a thin wrapper (memo, argument normalisation) hands the work to one rendering method: the gates live there
+    for _ in range(3):
+        mentions_status = any(isinstance(x, ast.Attribute) and x.attr == 'pulp_status' for c_ in ast.walk(f.node) if isinstance(c_, (ast.If, ast.IfExp)) for x in ast.walk(c_.test))
+        if mentions_status:
+            break
+        callees = {x.func.attr for x in ast.walk(f.node) if isinstance(x, ast.Call) and isinstance(x.func, ast.Attribute) and isinstance(x.func.value, ast.Name)
+                   and x.func.value.id == 'self' and x.func.attr in repo.classes['Model']}
+        renderers = [c_ for c_ in callees if any(isinstance(x, ast.Attribute) and x.attr == 'pulp_status' for x in ast.walk(repo.classes['Model'][c_].node))]
+        if len(renderers) != 1:
+            break
+        f = repo.classes['Model'][renderers[0]]
     consts = model_consts(repo)
     pc = pulpfacts.constants()
     rep.check(consts.get('OPTIMAL_PULP_STATUS') == pc['LpStatus'].get('LpStatusOptimal'), rule, repo.method('Model', '__init__').where,
@@ -274,6 +285,8 @@ def check_output_gates(rep, repo):
             tl_comb.append(t)
     # sensitive nodes: read LP variable values directly or through a local derived from such a read
     readers = lp_state_readers(repo)
+    # the text being assembled (whatever is returned) collects gated and ungated pieces alike: it carries no taint itself
+    out_names = {x.id for r_ in ast.walk(f.node) if isinstance(r_, ast.Return) and r_.value is not None for x in ast.walk(r_.value) if isinstance(x, ast.Name)} | {'results'}
     tainted = set()
     sens = []
     changed = True
@@ -296,7 +309,7 @@ def check_output_gates(rep, repo):
                 sens.append(n)
                 changed = True
                 for name, kind in g.defs_of(n).items():
-                    if name != 'results' and name not in tainted:
+                    if name not in out_names and name not in tainted:
                         tainted.add(name)
     # statements that print a statistic label from the matching also count (calls with a tainted argument are already in)
     rep.count('sensitive_statements', len(sens))
